@@ -209,7 +209,7 @@ FIXED += [
     ("C08", "accepted:delete-opener@do", "d53308f", "inside a labelled DO block an END DO without the block's label stayed as an ordinary child: a labelled DO closed by an unlabelled END DO (the labelled statement following), or a surplus END DO inside a labelled DO, was accepted",
      c08(wrap("  do 46 k = 1, 3\n    exit\n  end do\n  46 continue"), "delete-opener@do")),
     ("C08", "accepted:surplus-end@write", "d53308f", "same mechanism, reached by a surplus END DO after an inner loop",
-     c08(wrap("  do 10 i = 1, 2\n    do j = 1, 2\n      x = 1\n    end do\n    end do\n    write (*, *) x\n  end do\n  10 continue"), "surplus-end@write")),
+     c08(wrap("  do 10 i = 1, 2\n    do j = 1, 2\n      x = 1\n    end do\n    write (*, *) x\n  end do\n  10 continue"), "surplus-end@write")),
     ("C06", "ValueError@Format_Item_List.match", "32a5397", "'format (1x, 3 3Habc)': ValueError escaped (Hollerith count with a blank between its digits converted with int())",
      c06("program p\n10 format (1x, 3 3Habc, z8)\nend program p\n")),
     ("C04", "layout-rejected", "d96d4e8", "'real(8)pure function f(x)' - a prefix keyword directly after the closing parenthesis of the type-spec (lines joined by '&' ... '&') - was rejected",
